@@ -3,7 +3,7 @@
    instance is validated by every compared root, not proved. *)
 From Coq Require Import String List NArith Bool.
 From V.Base Require Import Hex.
-From V.C02 Require Import Keccak Model.
+From V.C02 Require Import Keccak Model ModelB.
 Import ListNotations.
 Local Open Scope N_scope.
 
@@ -14,7 +14,37 @@ Inductive hop :=
 | HGet (k : string) (found : bool) (v : string)        (* TryGet(k): found=false when it returned no bytes *)
 | HRoot (root enc : string)                            (* Hash()/Commit()/root after reopen; enc = RLP of the root
                                                           node as stored by the node database ("" = not observed) *)
-| HIter (start : string) (obs : list (string * string)). (* NewIterator(NodeIterator(start)) listing *)
+| HIter (start : string) (obs : list (string * string))  (* NewIterator(NodeIterator(start)) listing *)
+| HDisk (root : string) (dump : list (string * string)). (* after Commit + NodeDatabase.Commit(root): the whole
+                                                            content of the disk store, hash -> node RLP *)
+
+Fixpoint node_eqb (a b : node) : bool :=
+  match a, b with
+  | Empty, Empty => true
+  | Value v, Value w => bytes_eqb v w
+  | Short k c, Short k' c' => bytes_eqb k k' && node_eqb c c'
+  | Full cs, Full ds =>
+      (fix go (l1 l2 : list node) {struct l1} : bool :=
+         match l1, l2 with
+         | [], [] => true
+         | x :: r1, z :: r2 => node_eqb x z && go r1 r2
+         | _, _ => false
+         end) cs ds
+  | _, _ => false
+  end.
+
+(* layer B: (1) the real disk content, read back by the model's loader (ModelB.load: decodeNode +
+   resolveHash until everything is resolved), is exactly the model's trie; (2) every entry the model's
+   Commit writes (ModelB.commit_db) is in the real store with the same bytes *)
+Definition disk_ok (t : node) (root : bytes) (real : list (bytes * bytes)) : bool :=
+  match reopen (lookup real) 400 (keccak256 [128]) root with
+  | Some t' => node_eqb t' t
+  | None => false
+  end
+  && forallb (fun he => match lookup real (fst he) with
+                        | Some e => bytes_eqb e (snd he)
+                        | None => false
+                        end) (commit_db keccak256 t).
 
 Fixpoint kvs_eqb (a : list (bytes * bytes)) (b : list (string * string)) : bool :=
   match a, b with
@@ -39,6 +69,7 @@ Definition obs_ok (t : node) (o : hop) : bool :=
              && match enc with EmptyString => true | _ => bytes_eqb e (unhex enc) end
       end
   | HIter start obs => kvs_eqb (iter_from t (unhex start)) obs
+  | HDisk root dump => disk_ok t (unhex root) (map (fun he => (unhex (fst he), unhex (snd he))) dump)
   end.
 
 Definition apply (t : node) (o : hop) : node :=
